@@ -30,6 +30,12 @@ enum Action {
     Silent,
     /// chronyd answers with something that is not tracking data.
     WrongReply,
+    /// chronyd answers with a tracking reply carrying another sequence number than the request's.
+    BadSeq,
+    /// chronyd's tracking reply is cut after this many bytes (28 = header only ... 103).
+    Truncated(u8),
+    /// chronyd's reply announces another protocol version.
+    BadVersion,
     /// chronyd answers, but only this many real milliseconds after the request reached it: the
     /// client has retransmitted by then, and chronyd answers the retransmission as well.
     SlowAnswer(u32),
@@ -88,7 +94,8 @@ fn server(sh: Arc<Shared>) {
                 let seq = u32::from_be_bytes(buf[8..12].try_into().unwrap());
                 // the reply is tagged with the step it answers (stratum field)
                 let tag = ((sh.step.load(Ordering::SeqCst) as u32).wrapping_sub(1) & 0xffff) as u16;
-                let r = Report { ref_id: PHC_REFID, leap: 0, ref_time_ns: T0_REAL_S as i128 * NS, correction_bits: float_bits(1 << 12, 0), delay_bits: float_bits(1 << 12, 0), dispersion_bits: float_bits(1 << 12, 0), interval_bits: bits_of_f64(16.0) };
+                // (the root delay differs from poll to poll: a report can be told from its neighbours)
+                let r = Report { ref_id: PHC_REFID, leap: 0, ref_time_ns: T0_REAL_S as i128 * NS, correction_bits: float_bits(1 << 12, 0), delay_bits: delay_bits_of(tag), dispersion_bits: float_bits(1 << 12, 0), interval_bits: bits_of_f64(16.0) };
                 if let Action::SlowAnswer(ms) = mode {
                     if sh.requests_this_step.load(Ordering::SeqCst) == 1 {
                         std::thread::sleep(Duration::from_millis(ms as u64));
@@ -99,6 +106,19 @@ fn server(sh: Arc<Shared>) {
                         if let Some(p) = addr.as_pathname() {
                             let mut b = reply_bytes(&r, seq);
                             b[52..54].copy_from_slice(&tag.to_be_bytes());
+                            let _ = sock.send_to(&b, p);
+                        }
+                    }
+                    Action::BadSeq | Action::Truncated(_) | Action::BadVersion => {
+                        if let Some(p) = addr.as_pathname() {
+                            let mut b = reply_bytes(&r, if mode == Action::BadSeq { seq.wrapping_add(1) } else { seq });
+                            b[52..54].copy_from_slice(&tag.to_be_bytes());
+                            if mode == Action::BadVersion {
+                                b[0] = 5;
+                            }
+                            if let Action::Truncated(n) = mode {
+                                b.truncate(n as usize);
+                            }
                             let _ = sock.send_to(&b, p);
                         }
                     }
@@ -117,6 +137,10 @@ fn server(sh: Arc<Shared>) {
             _ => std::thread::sleep(Duration::from_micros(50)),
         }
     }
+}
+
+fn delay_bits_of(tag: u16) -> u32 {
+    float_bits((1 << 12) + (tag as i64 % 1000), 0)
 }
 
 fn kind_of(m: &Message) -> &'static str {
@@ -140,6 +164,9 @@ fn gen_script(rng: &mut Rng, with_silent: bool, with_slow: bool) -> (i64, Vec<(i
         let fail = |rng: &mut Rng| -> Action {
             match rng.below(if with_silent { 12 } else { 8 }) {
                 0 => Action::WrongReply,
+                1 => Action::BadSeq,
+                2 => Action::Truncated(*rng.pick(&[28u8, 40, 52, 54, 60, 92, 100, 103])),
+                3 => Action::BadVersion,
                 8.. => Action::Silent,
                 _ => Action::Vanish,
             }
@@ -175,12 +202,27 @@ fn gen_script(rng: &mut Rng, with_silent: bool, with_slow: bool) -> (i64, Vec<(i
     (t_start, out)
 }
 
+/// `n` polls one virtual second apart, all answered, then alternating short silences and answers.
+fn gen_long_script(n: usize) -> (i64, Vec<(i64, Action, i64)>) {
+    let t_start: i64 = 100 * NS as i64;
+    let mut t = t_start;
+    let mut out = Vec::new();
+    for i in 0..n + 24 {
+        t += 1_000_000_000 + (i as i64 % 7) * 1000;
+        let act = if i < n { Action::Answer } else { match (i - n) % 6 { 0 | 1 | 2 => Action::Vanish, 3 => Action::Answer, 4 => Action::BadSeq, _ => Action::Answer } };
+        out.push((t, act, 0));
+    }
+    (t_start, out)
+}
+
 pub fn run(a: &Args) -> Value {
     if std::fs::create_dir_all("/var/run/chrony").is_err() || std::fs::metadata("/var/run/chrony/.verif-private").is_err() {
         return json!({"inconclusive": "not inside the private /run namespace (marker /var/run/chrony/.verif-private missing)", "evaluations": 0, "violations": []});
     }
     let with_silent = a.map.get("silent").map(|s| s == "1").unwrap_or(false);
     let with_slow = a.map.get("slow").map(|s| s == "1").unwrap_or(false);
+    // One long life of a single poller (thousands of polls): state that accumulates.
+    let mut long_n: usize = a.map.get("long").and_then(|s| s.parse().ok()).unwrap_or(0);
     let sh = Arc::new(Shared { mono_ns: AtomicI64::new(0), latency_ns: AtomicI64::new(0), real_offset_ns: AtomicI64::new(0), rt_steps: Mutex::new(Vec::new()), phc_plan: Mutex::new(Vec::new()), phc_read_failures: Mutex::new(Vec::new()), step: AtomicUsize::new(0), script: Mutex::new(Vec::new()), socket: Mutex::new(None), mode: Mutex::new(Action::Answer), stop: AtomicBool::new(false), coarse_reads: AtomicUsize::new(0), requests_this_step: AtomicUsize::new(0) });
     // Virtual clock: every CLOCK_MONOTONIC_COARSE read of a virtual thread starts the next step.
     {
@@ -255,18 +297,23 @@ pub fn run(a: &Args) -> Value {
     let mut k = a.shard;
     while k < a.count {
         k += a.nshards;
-        let (t_start, script) = gen_script(&mut rng, with_silent, with_slow);
+        let long_now = long_n > 0;
+        let (t_start, script) = if long_now { gen_long_script(long_n) } else { gen_script(&mut rng, with_silent, with_slow) };
+        long_n = 0;
         distinct.insert(format!("{:?}", script));
         *sh.script.lock().unwrap() = script.clone();
         // The wall clock is stepped now and then (chronyd makestep, VM resume): the grace period is
         // a matter of elapsed (monotonic) time only.
-        *sh.rt_steps.lock().unwrap() = (0..script.len()).map(|_| match rng.below(10) { 0 => -60_000_000_000, 1 => 4_000_000_000, 2 => -4_000_000_000, 3 => 3_600_000_000_000, _ => 0 }).collect();
+        *sh.rt_steps.lock().unwrap() = (0..script.len()).map(|_| if long_now { 0 } else { match rng.below(10) { 0 => -60_000_000_000, 1 => 4_000_000_000, 2 => -4_000_000_000, 3 => 3_600_000_000_000, _ => 0 } }).collect();
         sh.real_offset_ns.store(0, Ordering::SeqCst);
-        let with_phc = rng.chance(1, 2);
-        let phc_plan: Vec<Option<i64>> = if with_phc { (0..script.len()).map(|_| if rng.chance(1, 8) { None } else { Some(*rng.pick(&[0i64, 1, 250, 12345, 31_000, 3_000_000])) }).collect() } else { Vec::new() };
+        let with_phc = long_now || rng.chance(1, 2);
+        let phc_plan: Vec<Option<i64>> = if long_now { vec![Some(12345); script.len()] } else if with_phc { (0..script.len()).map(|_| if rng.chance(1, 8) { None } else { Some(*rng.pick(&[0i64, 1, 250, 12345, 31_000, 3_000_000])) }).collect() } else { Vec::new() };
         *sh.phc_plan.lock().unwrap() = phc_plan.clone();
         // Reads of the file failing: once or twice (an implementation may retry), or throughout the poll.
-        let read_failures: Vec<(i32, u32)> = (0..script.len()).map(|_| if with_phc && rng.chance(1, 8) {
+        let read_failures: Vec<(i32, u32)> = (0..script.len()).map(|i| if long_now {
+            // the attribute cannot be read for 340 polls in a row, then it can again
+            if (10..350).contains(&i) { (libc::EIO, 1000) } else { (0, 0) }
+        } else if with_phc && rng.chance(1, 8) {
             // the value arrives in pieces of 1, 2 or 3 bytes
             (-1, 1 + rng.below(3) as u32)
         } else if with_phc && rng.chance(1, 5) {
@@ -354,6 +401,9 @@ pub fn run(a: &Args) -> Value {
                 let want_phc = match phc_now { Some(Some(v)) => v, _ => 0 };
                 if as_of_ns != *t || *phc != want_phc {
                     violation(&mut violations, a, "C13", "real-poller-measurement", format!("step {} answer at monotonic {} ns: message as_of {} ns, PHC bound {} (the PHC error-bound file holds {:?} at this poll), ref id {:#x}", i, t, as_of_ns, phc, phc_now, tr.ref_id), json!({"script": format!("{:?}", script)}));
+                }
+                if f64::from(tr.root_delay) != crate::wire::f64_of_bits(delay_bits_of(i as u16)) {
+                    violation(&mut violations, a, "C12", "report-not-from-this-poll", format!("step {} (as_of {} ns): the measurement message carries root delay {} s, chronyd's reply to this poll's request said {} s — the values are those of another poll's reply", i, as_of_ns, f64::from(tr.root_delay), crate::wire::f64_of_bits(delay_bits_of(i as u16))), json!({"script": format!("{:?}", script)}));
                 }
                 if tr.stratum != (i as u16) {
                     violation(&mut violations, a, "C12", "report-not-from-this-poll", format!("step {} (as_of {} ns): the measurement message carries chronyd's reply to the request of step {} — its as_of was not read before the request that produced the report", i, as_of_ns, tr.stratum), json!({"script": format!("{:?}", script)}));
